@@ -1,7 +1,7 @@
 (* C11, first sentence, at the depths where the search is exact (iterations 1..3, uninterrupted):
    a mate in one is played, and a move that lets the opponent mate at once is not played if it can be avoided. *)
 From Walleye Require Import Model.Search Spec.Minimax Proofs.DrawTableProofs Proofs.TableRestored Proofs.AlphaBeta
-  Proofs.EvalProofs Proofs.RootProofs Proofs.PVS Proofs.OhCongruence Proofs.PVSRoot.
+  Proofs.EvalProofs Proofs.RootProofs Proofs.PVS Proofs.OhCongruence Proofs.PVSRoot Proofs.ClockSim.
 From Coq Require Import Lia Permutation.
 Open Scope Z_scope.
 
@@ -54,17 +54,17 @@ Variable osort : N -> list BoardState -> list BoardState.
 Hypothesis osort_perm : forall i l, Permutation l (osort i l).
 
 (* a mate in one is found: the iteration reports MATE - 1 ("mate 1") and sends a mating move *)
-Theorem mate_in_one_is_played fuel F first t d b ms0 ms ws r o r2 m1 :
+Theorem mate_in_one_is_played k fuel F first t d b ms0 ms ws r o r2 m1 :
   1 <= d <= 3 -> 1 + Z.of_nat F <= 100 -> dt_nonneg t ->
   Forall2 same_move ms0 (generate_moves zt b AllMoves) -> Permutation ms0 ms ->
   Forall2 (rval zt F d t) (generate_moves zt b AllMoves) ws ->
   In m1 (generate_moves zt b AllMoves) -> mated m1 -> is_threefold_repetition t m1 = false ->
   dt_equiv (table (r_s r)) t ->
-  root_moves zt osort None fuel first ms d NEG_INF r = Ok (o, r2) ->
+  root_moves zt osort k fuel first ms d NEG_INF r = Ok (o, r2) -> quiet k (r_s r2) ->
   exists r' mov line evs,
     o = Some r' /\ r_events r' = Info d (M - 1) line :: Send mov :: evs /\ r_best r' = Some mov /\ In mov ms /\ mated mov.
 Proof.
-  intros Hd HF NN SM P HFv Hm1 MT NR E H.
+  intros Hd HF NN SM P HFv Hm1 MT NR E H Q.
   assert (IM : is_max (M - 1) (map Z.opp ws)).
   { split.
     - intros y Hy. apply in_map_iff in Hy. destruct Hy as (x & <- & Hx). destruct (in_F2 _ _ _ _ HFv Hx) as (c & _ & Hc).
@@ -75,7 +75,7 @@ Proof.
       assert (x = - (M - 1)) by (apply (mated_value F m1 (d - 1) 1 t x ltac:(lia) HF Hr); auto). subst x.
       apply in_map_iff. exists (- (M - 1)). split; [lia|exact Hx]. }
   assert (NE : generate_moves zt b AllMoves <> []) by (intros X; rewrite X in Hm1; contradiction).
-  destruct (root_iteration_value zt osort osort_perm fuel F first t d b ms0 ms ws (M - 1) r o r2 Hd HF NN NE SM P HFv IM E H)
+  destruct (timed_iteration_value zt osort osort_perm k fuel F first t d b ms0 ms ws (M - 1) r o r2 Hd HF NN NE SM P HFv IM E H Q)
     as (r' & mov & line & evs & x & Ho & Ev & Bs & Hin & Hr & Ex).
   exists r', mov, line, evs. split; [exact Ho|]. split; [exact Ev|]. split; [exact Bs|]. split; [exact Hin|].
   assert (x = - (M - 1)) by lia. apply (mated_value F mov (d - 1) 1 t x ltac:(lia) HF Hr). exact H0.
@@ -119,18 +119,18 @@ Proof.
     assert (LB : - - (M - 2) <= x) by (apply Hle; apply in_map; exact Hy). lia.
 Qed.
 
-Theorem avoidable_mate_is_avoided fuel F first t d b ms0 ms ws r o r2 m1 :
+Theorem avoidable_mate_is_avoided k fuel F first t d b ms0 ms ws r o r2 m1 :
   2 <= d <= 3 -> 1 + Z.of_nat F <= 100 -> dt_nonneg t ->
   Forall2 same_move ms0 (generate_moves zt b AllMoves) -> Permutation ms0 ms ->
   Forall2 (rval zt F d t) (generate_moves zt b AllMoves) ws ->
   In m1 (generate_moves zt b AllMoves) -> ~ (is_threefold_repetition t m1 = false /\ allows_mate t m1) ->
   dt_equiv (table (r_s r)) t ->
-  root_moves zt osort None fuel first ms d NEG_INF r = Ok (o, r2) ->
+  root_moves zt osort k fuel first ms d NEG_INF r = Ok (o, r2) -> quiet k (r_s r2) ->
   exists r' mov line evs e,
     o = Some r' /\ r_events r' = Info d e line :: Send mov :: evs /\ r_best r' = Some mov /\ In mov ms /\
     ~ (is_threefold_repetition t mov = false /\ allows_mate t mov).
 Proof.
-  intros Hd HF NN SM P HFv Hm1 Av E H.
+  intros Hd HF NN SM P HFv Hm1 Av E H Q.
   assert (NE : generate_moves zt b AllMoves <> []) by (intros X; rewrite X in Hm1; contradiction).
   assert (NEw : ws <> []) by (destruct HFv; [contradiction|discriminate]).
   (* the maximum exists *)
@@ -139,7 +139,7 @@ Proof.
   { destruct ws as [|w0 ws']; [contradiction|]. cbn [hd tl] in A. split.
     - intros y [<-|Hy]; [apply fold_max_ge|now apply fold_max_in].
     - destruct (fold_max_cases (map Z.opp ws') (- w0)) as [Eq|Hin]; [left; symmetry; exact Eq|right; exact Hin]. }
-  destruct (root_iteration_value zt osort osort_perm fuel F first t d b ms0 ms ws A r o r2 ltac:(lia) HF NN NE SM P HFv IM E H)
+  destruct (timed_iteration_value zt osort osort_perm k fuel F first t d b ms0 ms ws A r o r2 ltac:(lia) HF NN NE SM P HFv IM E H Q)
     as (r' & mov & line & evs & x & Ho & Ev & Bs & Hin & Hr & Ex).
   exists r', mov, line, evs, A. split; [exact Ho|]. split; [exact Ev|]. split; [exact Bs|]. split; [exact Hin|].
   assert (exists x1, In x1 ws /\ rval zt F d t m1 x1) as (x1 & Hx1 & Hr1).
